@@ -225,6 +225,33 @@ let handle () =
          | Some (x, t) -> emit (string_of_int (int_of_nat d)); emit (string_of_int (int_of_nat f));
                           emit (string_of_int (int_of_nat x));
                           emit (match t with None -> "-1" | Some k -> string_of_int (int_of_nat k))) files
+   | "GAPPLY" ->
+     let wcn = nbool () in let wcs = nbool () in let norb = nz () in let hcn = nbool () in
+     let kind = (match next () with "R" -> KRestricted | "S" -> KSpinOrb | "D" -> KDiag | "C" -> KDC | _ -> KSparse) in
+     let dim = nz () in
+     emit (sb (m_apply_verdict { w_cn = wcn; w_cs = wcs; w_norb = norb; h_cn = hcn; h_kind = kind; h_dim = dim }))
+   | "GEVOLVE" ->
+     let a = nbool () in let b = nbool () in let c = nbool () in let d = nbool () in let e = nbool () in
+     emit (sb (m_evolve_inplace_verdict { e_inplace = a; e_individual = b; e_quadratic = c; e_diag = d; e_dc = e }))
+   | "GGENU" ->
+     let al = (match next () with "taylor" -> ATaylor | "chebyshev" -> AChebyshev | _ -> AOther) in
+     let sl = nbool () in let ei = nbool () in
+     emit (sb (m_genu_verdict { g_algo = al; g_speclim = sl; g_expansion_is_int = ei }))
+   | "GRDM" ->
+     let sf = nbool () in let k = nint () in
+     let toks = rep k (fun () ->
+       match next () with
+       | "L" -> let c = nnat () in let d = nbool () in TLetter (c, d)
+       | "N" -> let c = nnat () in let d = nbool () in TDigit (c, d)
+       | _ -> TBad) in
+     emit (sb (m_rdm_tensor_verdict sf toks))
+   | "GSETDATA" ->
+     let ns = nint () in
+     let secs = rep ns (fun () -> let k = nnat () in let a = nnat () in let b = nnat () in (k, (a, b))) in
+     let nd = nint () in
+     let data = rep nd (fun () -> let k = nnat () in let a = nnat () in let b = nnat () in (k, (a, b))) in
+     let (ok, ks) = m_setdata_spec secs data in
+     emit (sb ok); List.iter (fun k -> emit (string_of_int (int_of_nat k))) ks
    | "INNER" ->
      let norb = nnat () in let x = nvec () in let y = nvec () in
      emit (sgz (m_inner norb x y))
